@@ -244,7 +244,9 @@ def check_template_and_exists(ctx, rng, tmp, data, rate, width, channels):
     if after != before:
         ctx.violation("exists_ok-false-overwrote-the-file", {"case": cj})
     elif writes:
-        ctx.violation("exists_ok-false-opened-the-file-for-writing", {"case": cj, "open_events": writes[:3]})
+        # observed, not judged: an exclusive-create attempt ("x") or an append handle that writes nothing leaves the file as it
+        # was, and "refuses to overwrite" is about the file (unchanged, checked above) and the error (raised, checked above)
+        ctx.count("exists_ok_false_open_attempts_that_left_the_file_unchanged")
     # exists_ok=True (default) overwrites
     try:
         reg.save(target)
